@@ -350,7 +350,7 @@ def run(ctx):
                 ctx.log("replay rc=%d %s %s" % (rc, o[:300], err[-300:]))
                 if rc != 0 or " other " in o or "DIFF" in o:
                     ctx.violation("replayed: " + r.get("what", "")[:200], r, signature=r.get("signature"))
-            elif l.startswith("xicc"):
+            elif l.startswith("xicc") or l.startswith("xmk"):
                 rc, o, err = finding_run(ctx, exes["simd"], l)
                 ctx.log("replay rc=%d %s" % (rc, o[:300]))
                 if rc != 0 or "norealloc=ok" not in o:
@@ -442,7 +442,7 @@ def run(ctx):
     nh = run_stream(ctx, "H", h_lines, drv, exes, 2)
     # ---- S: jpeg_mem_dest re-armed on the same object with the SAME pointer value after the caller shrank the block
     #         in place (free + smaller allocation at the same address: canary / poisoned tail behind it): the granted
-    #         size must be honoured.  Outside the theorem (address recycling), expected clean; model still compared.
+    #         size must be honoured.  Outside the w_ok theorems (address recycling) but inside C13_ijg_safe_any_allocator; model compared.
     s_lines = [l for l in corpus if l.startswith("histS ")]
     s_lines = ["hist" + l[5:] for l in s_lines]
     for _ in range(ctx.n(300, 3000)):
@@ -550,6 +550,43 @@ def run(ctx):
             ctx.log("transform/ICC model and implementation disagree: %s\n  model: %s\n  impl : %s" % (l, ml[i], o))
             ctx.broken_tie("correspondence:xicc", "ICC term/payload differ on %s: model %s impl %s" % (l, ml[i][:60], o[:80]))
     ctx.cov["xicc_term_below_payload"] = under
+
+    # ---- transform of a source that carries markers: ICC profile in k chunks (any chunking is legal; every chunk costs
+    #      18 bytes that tj3TransformBufSize does not count), COM / APP1 markers copied by the default TJPARAM_SAVEMARKERS
+    ml_ = []
+    for k, payload in ((1, 2550), (2, 2550), (10, 3000), (79, 2550), (114, 2550), (255, 2550), (255, 70000), (3, 140000)):
+        for save in range(5):
+            for cn in (0, 1):
+                ml_.append("xmk 0 %d %d %d %d %d %d" % (k, payload, save, cn, rng.choice([8, 8, 16, 64]), rng.below(1000)))
+    for kind in (1, 2):
+        for payload in (100, 3000, 60000):
+            for save in range(5):
+                ml_.append("xmk %d 0 %d %d %d %d %d" % (kind, payload, save, rng.below(2), rng.choice([8, 64]), rng.below(1000)))
+    mm = model_lines(ctx, drv, ml_)
+    rc, out, err = run_lines(exes["simd"], ml_)
+    if rc != 0:
+        ctx.violation("crash in the marker-carrying transform stream rc=%d: %s" % (rc, err[-300:]), {"lines": ml_[max(0, len(out) - 2):][:1]}, signature="xmk:crash")
+    other_refused = 0
+    for i, l in enumerate(ml_):
+        o = out[i].strip() if i < len(out) else ""
+        m = re.match(r"xmk term=(-?\d+) total=(\d+) cap=(\d+) norealloc=(\w+)", o)
+        if not m:
+            ctx.broken_tie("harness:xmk", "unexpected output %s for %s" % (o[:80], l))
+            continue
+        kind = int(l.split()[1])
+        ctx.count("xmk", 1, ("xmk", " ".join(l.split()[1:6]), m.group(4)))
+        if mm is not None:
+            mt = re.match(r"xmk term=(-?\d+) iccbytes=(\d+) budget=(\d+)", mm[i])
+            if not mt or int(mt.group(1)) != int(m.group(1)):
+                ctx.broken_tie("correspondence:xmk", "ICC term differs on %s: model %s impl %s" % (l, mm[i][:60], o[:80]))
+        if m.group(4) != "ok":
+            if kind == 0:
+                ctx.violation("a buffer of exactly tj3TransformBufSize() bytes is refused although only an ICC profile is copied: the %s chunks of the "
+                              "source profile cost 18 bytes each beyond the payload: %s -> %s" % (l.split()[2], l, o),
+                              {"lines": [l], "impl": o, "model": mm[i] if mm else None}, signature="xform-icc-undersized:chunk-overhead")
+            else:
+                other_refused += 1     # COM/APPn markers: "other extra markers", outside the property text
+    ctx.cov["xmk_refused_with_copied_COM_or_APPn_markers(outside_property_text)"] = other_refused
 
     # ---- arithmetic: ICC overhead and tj3JPEGBufSize, model vs implementation vs closed form
     ar = ["icc %d" % n for n in [1, 2, 100, 65518, 65519, 65520, 131037, 131038, 131039, 200000] + [rng.range(1, 400000) for _ in range(ctx.n(6, 40))]]
